@@ -31,6 +31,7 @@ pub fn run(ctx: &Ctx) -> Report {
         lens = (0..=66).collect();
         lens.extend([127usize, 128, 129, 255, 256, 257, 300, 4096]);
     }
+    let base_lens = lens.clone();
     let reps = ctx.budget(1, 6, 1);
     for (ti, t) in ts.iter().enumerate() {
         if !ctx.wants_name(&t.name) || (ti as u64) % ctx.nshards != ctx.shard {
@@ -38,6 +39,18 @@ pub fn run(ctx: &Ctx) -> Report {
         }
         let mut rng = ctx.rng(&format!("keylen:{}", t.name));
         let mut accepted = Vec::new();
+        // beyond 300: every accepted length shifted by the moduli at which a narrowing cast of the
+        // length (bytes, words or bits, to u8 or u16) would wrap around
+        let mut lens = base_lens.clone();
+        if !ctx.light() {
+            let acc: Vec<usize> = (0..=300).filter(|l| (t.accepts)(*l)).collect();
+            let picks: Vec<usize> = if acc.len() <= 6 { acc.clone() } else { vec![acc[0], acc[1], acc[acc.len() / 2], acc[acc.len() - 2], acc[acc.len() - 1]] };
+            for l in picks {
+                for m in [32usize, 64, 256, 512, 1024, 2048, 8192, 16384, 65536, 131072, 262144] {
+                    lens.push(l + m);
+                }
+            }
+        }
         for _ in 0..reps {
             for &len in &lens {
                 let cl = gen::pick_class(&mut rng, len as u64);
